@@ -150,10 +150,10 @@ def search(ctx):
             if k % 10 == 0:
                 try:
                     from cirbo.core.circuit import Circuit
-                    path = os.path.join(tmpdir, 'sub', f'c{k}.bench')
+                    # a few paths are used again and again (a file that is rewritten and loaded again in one process)
+                    path = os.path.join(tmpdir, 'sub', f'c{k % 3}.bench')
                     circ_from_json(j).save_to_file(path)
                     back = circ_to_json(Circuit.from_bench_file(path))
-                    os.unlink(path)
                     if not same_circuit(back, j):
                         ctx.violation('roundtrip.file', 'from_bench_file(save_to_file(c)) != c', input={'c': j})
                 except Exception as e:  # noqa: BLE001
